@@ -1,17 +1,23 @@
 """C28 workloads: hand-templated differentiable models for HMC, each with an independent
 reference log density.
 
-Every template returns a dict
-    name        template label
-    model,args  genjax generative function and its arguments
-    start       {address tuple: numpy value}: complete start assignment (installed with importance)
-    cont        addresses holding continuous (float) choices;  disc: discrete ones
-    readers     {address: fn(choice map) -> array} (public lookups only); read(ch) applies all of them
-    constraint  genjax ChoiceMap of `start`
-    logp(vals, xp)  reference joint log density; `xp` is numpy (float64 evaluation) or jax.numpy
-                (for jax.grad under enable_x64); continuous entries of `vals` may be tracers
-    selections  list of (label, genjax Selection, [addresses it covers])
-    quadratic   True when log p is quadratic in the continuous choices
+A *family* fixes everything that decides the shape of the traced computation (template, vector
+lengths, discrete start values); the numeric parameters `th`, the start assignment and the step
+size are *inputs*, so that one compiled computation serves many variants.
+
+Every template function takes a structural rng and returns a dict
+    name            template label
+    model           genjax generative function
+    mk_args(th)     model arguments from the parameter vector (jnp or numpy array `th`)
+    draw_params(rng) -> numpy parameter vector;   draw_start(rng) -> {address tuple: numpy value}
+    kinds           {address: 'c' continuous | 'b' bool | 'i' int}
+    readers         {address: fn(choice map) -> array} (public lookups only)
+    mk_constraint(start, pyfloat=()) -> genjax ChoiceMap holding the complete start assignment
+    pyfloat_ok      (optional) addresses that may be constrained with a plain Python float
+    logp(vals, th, xp)  reference joint log density; `xp` is numpy (float64 evaluation) or
+                    jax.numpy (for jax.grad under enable_x64); entries of `vals` may be tracers
+    selections      list of (label, genjax Selection, [addresses it covers])
+    quadratic       True when log p is quadratic in the continuous choices
 The genjax model and `logp` are two separate transcriptions of the same mathematical model.
 """
 
@@ -24,11 +30,11 @@ import numpy as np
 LOG2PI = math.log(2.0 * math.pi)
 
 
-def _r(rng, lo, hi, nd=3):
+def _u(rng, lo, hi, nd=3):
     return float(np.round(rng.uniform(lo, hi), nd))
 
 
-def _rv(rng, lo, hi, n, nd=3):
+def _uv(rng, lo, hi, n, nd=3):
     return np.round(rng.uniform(lo, hi, size=n), nd)
 
 
@@ -45,283 +51,275 @@ def cauchy_lp(xp, v, loc, s):
 
 def student_lp(xp, v, df, loc, s):
     z = (v - loc) / s
-    c = math.lgamma((df + 1.0) / 2.0) - math.lgamma(df / 2.0) - 0.5 * math.log(df * math.pi) - math.log(s)
-    return xp.sum(c - 0.5 * (df + 1.0) * xp.log(1.0 + z * z / df))
+    c = math.lgamma((df + 1.0) / 2.0) - math.lgamma(df / 2.0) - 0.5 * math.log(df * math.pi)
+    return xp.sum(c - xp.log(s + 0.0 * z) - 0.5 * (df + 1.0) * xp.log(1.0 + z * z / df))
 
 
 def gumbel_lp(xp, v, loc, s):
     z = (v - loc) / s
-    return xp.sum(-(z + xp.exp(-z)) - math.log(s))
+    return xp.sum(-(z + xp.exp(-z)) - xp.log(s + 0.0 * z))
 
 
 def _key(addr):
     return addr if len(addr) > 1 else addr[0]
 
 
-def _mk_constraint(genjax, jnp, start, kinds):
-    C = genjax.ChoiceMap
-    chm = C.empty()
-    for addr, v in start.items():
-        if kinds[addr] == "c":
-            val = jnp.asarray(v, jnp.float32)
-        elif kinds[addr] == "b":
-            val = jnp.asarray(v, bool)
-        else:
-            val = jnp.asarray(v, jnp.int32)
-        chm = chm | C.empty().at[_key(addr)].set(val)
-    return chm
-
-
-def _finish(genjax, jnp, d, kinds, read=None):
+def _finish(genjax, jnp, d, kinds, ranges, start_ranges, read=None):
+    """ranges: list of (lo, hi) per parameter; start_ranges: {addr: (lo, hi, shape or None)}."""
     d["kinds"] = kinds
     d["cont"] = [a for a, k in kinds.items() if k == "c"]
     d["disc"] = [a for a, k in kinds.items() if k != "c"]
-    d["constraint"] = _mk_constraint(genjax, jnp, d["start"], kinds)
     readers = {a: (lambda ch, a=a: ch[_key(a)]) for a in kinds}
     readers.update(read or {})
     d["readers"] = readers
-    d["read"] = lambda ch: {a: r(ch) for a, r in readers.items()}
+    d.setdefault("mk_args", lambda th: (th,))
+    fixed_start = d.get("fixed_start", {})
+
+    def draw_params(rng):
+        return np.array([_u(rng, lo, hi) for lo, hi in ranges], dtype=np.float64)
+
+    def draw_start(rng):
+        out = {}
+        for a in kinds:
+            if a in fixed_start:
+                out[a] = fixed_start[a]
+                continue
+            lo, hi, shape = start_ranges[a]
+            out[a] = _u(rng, lo, hi) if shape is None else _uv(rng, lo, hi, shape)
+        return out
+
+    def mk_constraint(start, pyfloat=()):
+        """`pyfloat`: addresses whose value is given as a plain Python float (as user code and
+        the library's own tests do: `ChoiceMap.kw(y=3.0)`) instead of a jax array."""
+        C = genjax.ChoiceMap
+        chm = C.empty()
+        for addr, v in start.items():
+            dt = {"c": jnp.float32, "b": bool, "i": jnp.int32}[kinds[addr]]
+            val = float(v) if addr in pyfloat else jnp.asarray(v, dt)
+            chm = chm | C.empty().at[_key(addr)].set(val)
+        return chm
+
+    d["draw_params"], d["draw_start"], d["mk_constraint"] = draw_params, draw_start, mk_constraint
     return d
 
 
-def t_chain(rng, genjax, jnp):
+SC = (0.7, 1.6)  # scale parameters: keeps eps^2 * curvature moderate for eps <= 0.3
+
+
+def t_chain(srng, genjax, jnp):
     S = genjax.SelectionBuilder
-    a, s1, c, s2, d, s3 = _r(rng, -1, 1), _r(rng, 0.7, 1.6), _r(rng, -1.2, 1.2), _r(rng, 0.6, 1.5), _r(rng, -1, 1), _r(rng, 0.6, 1.3)
 
     @genjax.gen
-    def chain(a_):
-        x = genjax.normal(a_, s1) @ "x"
-        z = genjax.normal(c * jnp.sin(x), s2) @ "z"
-        y = genjax.normal(x * z + d, s3) @ "y"
+    def chain(th):
+        x = genjax.normal(th[0], th[1]) @ "x"
+        z = genjax.normal(th[2] * jnp.sin(x), th[3]) @ "z"
+        y = genjax.normal(x * z + th[4], th[5]) @ "y"
         return y
 
-    start = {("x",): _r(rng, -1.5, 1.5), ("z",): _r(rng, -1.5, 1.5), ("y",): _r(rng, -1.5, 1.5)}
-
-    def logp(v, xp):
+    def logp(v, th, xp):
         x, z, y = v[("x",)], v[("z",)], v[("y",)]
-        return n_lp(xp, x, a, s1) + n_lp(xp, z, c * xp.sin(x), s2) + n_lp(xp, y, x * z + d, s3)
+        return n_lp(xp, x, th[0], th[1]) + n_lp(xp, z, th[2] * xp.sin(x), th[3]) + n_lp(xp, y, x * z + th[4], th[5])
 
     sels = [("x", S["x"], [("x",)]), ("z", S["z"], [("z",)]), ("x|z", S["x"] | S["z"], [("x",), ("z",)]), ("all", genjax.Selection.all(), [("x",), ("z",), ("y",)]), ("x|y", S["x"] | S["y"], [("x",), ("y",)])]
-    return _finish(genjax, jnp, dict(name="chain", model=chain, args=(a,), start=start, logp=logp, selections=sels, quadratic=False), {("x",): "c", ("z",): "c", ("y",): "c"})
+    kinds = {("x",): "c", ("z",): "c", ("y",): "c"}
+    return _finish(genjax, jnp, dict(name="chain", model=chain, logp=logp, selections=sels, quadratic=False, pyfloat_ok=[("y",)]), kinds, [(-1, 1), SC, (-1.2, 1.2), SC, (-1, 1), SC], {a: (-1.5, 1.5, None) for a in kinds})
 
 
-def t_gauss(rng, genjax, jnp):
+def t_gauss(srng, genjax, jnp):
     """Linear-Gaussian (quadratic log density): the control group."""
     S = genjax.SelectionBuilder
-    a, s1, c, s2 = _r(rng, -1, 1), _r(rng, 0.7, 1.6), _r(rng, -1.2, 1.2), _r(rng, 0.5, 1.3)
 
     @genjax.gen
-    def gauss():
-        x = genjax.normal(a, s1) @ "x"
-        y = genjax.normal(c * x, s2) @ "y"
+    def gauss(th):
+        x = genjax.normal(th[0], th[1]) @ "x"
+        y = genjax.normal(th[2] * x, th[3]) @ "y"
         return y
 
-    start = {("x",): _r(rng, -1.5, 1.5), ("y",): _r(rng, -1.5, 1.5)}
+    def logp(v, th, xp):
+        return n_lp(xp, v[("x",)], th[0], th[1]) + n_lp(xp, v[("y",)], th[2] * v[("x",)], th[3])
 
-    def logp(v, xp):
-        return n_lp(xp, v[("x",)], a, s1) + n_lp(xp, v[("y",)], c * v[("x",)], s2)
-
-    sels = [("x", S["x"], [("x",)]), ("all", S["x"] | S["y"], [("x",), ("y",)])]
-    return _finish(genjax, jnp, dict(name="gauss", model=gauss, args=(), start=start, logp=logp, selections=sels, quadratic=True), {("x",): "c", ("y",): "c"})
+    sels = [("x", S["x"], [("x",)]), ("x|y", S["x"] | S["y"], [("x",), ("y",)])]
+    kinds = {("x",): "c", ("y",): "c"}
+    return _finish(genjax, jnp, dict(name="gauss", model=gauss, logp=logp, selections=sels, quadratic=True, pyfloat_ok=[("y",)]), kinds, [(-1, 1), SC, (-1.2, 1.2), SC], {a: (-1.5, 1.5, None) for a in kinds})
 
 
-def t_funnel(rng, genjax, jnp):
+def t_funnel(srng, genjax, jnp):
     S = genjax.SelectionBuilder
-    n = int(rng.integers(2, 4))
-    sv, s = _r(rng, 0.8, 1.4), _r(rng, 0.6, 1.2)
+    n = int(srng.integers(2, 4))
 
     @genjax.gen
-    def funnel():
-        v = genjax.normal(0.0, sv) @ "v"
+    def funnel(th):
+        v = genjax.normal(0.0, th[0]) @ "v"
         x = genjax.normal(jnp.zeros(n), jnp.exp(v / 2.0) * jnp.ones(n)) @ "x"
-        y = genjax.normal(x, s * jnp.ones(n)) @ "y"
+        y = genjax.normal(x, th[1] * jnp.ones(n)) @ "y"
         return y
 
-    start = {("v",): _r(rng, -1.0, 1.0), ("x",): _rv(rng, -1.5, 1.5, n), ("y",): _rv(rng, -1.5, 1.5, n)}
-
-    def logp(val, xp):
+    def logp(val, th, xp):
         v, x, y = val[("v",)], val[("x",)], val[("y",)]
-        return n_lp(xp, v, 0.0, sv) + n_lp(xp, x, 0.0, xp.exp(v / 2.0)) + n_lp(xp, y, x, s)
+        return n_lp(xp, v, 0.0, th[0]) + n_lp(xp, x, 0.0, xp.exp(v / 2.0)) + n_lp(xp, y, x, th[1])
 
     sels = [("v", S["v"], [("v",)]), ("x", S["x"], [("x",)]), ("v|x", S["v"] | S["x"], [("v",), ("x",)])]
-    return _finish(genjax, jnp, dict(name="funnel", model=funnel, args=(), start=start, logp=logp, selections=sels, quadratic=False), {("v",): "c", ("x",): "c", ("y",): "c"})
+    kinds = {("v",): "c", ("x",): "c", ("y",): "c"}
+    return _finish(genjax, jnp, dict(name=f"funnel{n}", model=funnel, logp=logp, selections=sels, quadratic=False), kinds, [(0.8, 1.4), SC], {("v",): (-1, 1, None), ("x",): (-1.5, 1.5, n), ("y",): (-1.5, 1.5, n)})
 
 
-def t_heavy(rng, genjax, jnp):
+def t_heavy(srng, genjax, jnp):
     S = genjax.SelectionBuilder
-    a, sc, df, s2, bg = _r(rng, -1, 1), _r(rng, 0.7, 1.5), float(rng.integers(3, 8)), _r(rng, 0.7, 1.5), _r(rng, 0.8, 1.6)
+    df = float(srng.integers(3, 8))
 
     @genjax.gen
-    def heavy(a_):
-        u = genjax.normal(a_, 1.0) @ "u"
-        w = genjax.cauchy(u, sc) @ "w"
-        t = genjax.student_t(df, w, s2) @ "t"
-        y = genjax.gumbel(t, bg) @ "y"
+    def heavy(th):
+        u = genjax.normal(th[0], 1.0) @ "u"
+        w = genjax.cauchy(u, th[1]) @ "w"
+        t = genjax.student_t(df, w, th[2]) @ "t"
+        y = genjax.gumbel(t, th[3]) @ "y"
         return y
 
-    start = {("u",): _r(rng, -1.5, 1.5), ("w",): _r(rng, -1.5, 1.5), ("t",): _r(rng, -1.5, 1.5), ("y",): _r(rng, -1.0, 2.0)}
-
-    def logp(v, xp):
+    def logp(v, th, xp):
         u, w, t, y = v[("u",)], v[("w",)], v[("t",)], v[("y",)]
-        return n_lp(xp, u, a, 1.0) + cauchy_lp(xp, w, u, sc) + student_lp(xp, t, df, w, s2) + gumbel_lp(xp, y, t, bg)
+        return n_lp(xp, u, th[0], 1.0) + cauchy_lp(xp, w, u, th[1]) + student_lp(xp, t, df, w, th[2]) + gumbel_lp(xp, y, t, th[3])
 
     sels = [("u", S["u"], [("u",)]), ("w", S["w"], [("w",)]), ("t", S["t"], [("t",)]), ("u|w|t", S["u"] | S["w"] | S["t"], [("u",), ("w",), ("t",)])]
-    return _finish(genjax, jnp, dict(name="heavy", model=heavy, args=(a,), start=start, logp=logp, selections=sels, quadratic=False), {("u",): "c", ("w",): "c", ("t",): "c", ("y",): "c"})
+    kinds = {("u",): "c", ("w",): "c", ("t",): "c", ("y",): "c"}
+    return _finish(genjax, jnp, dict(name="heavy", model=heavy, logp=logp, selections=sels, quadratic=False), kinds, [(-1, 1), SC, SC, (0.8, 1.6)], {("u",): (-1.5, 1.5, None), ("w",): (-1.5, 1.5, None), ("t",): (-1.5, 1.5, None), ("y",): (-1.0, 2.0, None)})
 
 
-def t_vec(rng, genjax, jnp):
+def t_vec(srng, genjax, jnp):
     S = genjax.SelectionBuilder
-    n = int(rng.integers(2, 5))
-    mu, sc, co, s, s3 = _rv(rng, -1, 1, n), _rv(rng, 0.7, 1.6, n), _rv(rng, -1, 1, n), _r(rng, 0.6, 1.3), _r(rng, 0.7, 1.3)
-    jmu, jsc, jco = jnp.asarray(mu, jnp.float32), jnp.asarray(sc, jnp.float32), jnp.asarray(co, jnp.float32)
+    n = int(srng.integers(2, 5))
 
     @genjax.gen
-    def vec():
-        w = genjax.normal(jmu, jsc) @ "w"
-        q = genjax.normal(w[0] * w[-1], s) @ "q"
-        y = genjax.normal(jnp.sum(w * jco) + 0.5 * q * q, s3) @ "y"
+    def vec(th):
+        w = genjax.normal(th[0:n], th[n : 2 * n]) @ "w"
+        q = genjax.normal(w[0] * w[-1], th[3 * n]) @ "q"
+        y = genjax.normal(jnp.sum(w * th[2 * n : 3 * n]) + 0.5 * q * q, th[3 * n + 1]) @ "y"
         return y
 
-    start = {("w",): _rv(rng, -1.5, 1.5, n), ("q",): _r(rng, -1.5, 1.5), ("y",): _r(rng, -1.5, 1.5)}
-
-    def logp(v, xp):
+    def logp(v, th, xp):
         w, q, y = v[("w",)], v[("q",)], v[("y",)]
-        return n_lp(xp, w, mu, sc) + n_lp(xp, q, w[0] * w[-1], s) + n_lp(xp, y, xp.sum(w * co) + 0.5 * q * q, s3)
+        return n_lp(xp, w, th[0:n], th[n : 2 * n]) + n_lp(xp, q, w[0] * w[-1], th[3 * n]) + n_lp(xp, y, xp.sum(w * th[2 * n : 3 * n]) + 0.5 * q * q, th[3 * n + 1])
 
     sels = [("w", S["w"], [("w",)]), ("q", S["q"], [("q",)]), ("w|q", S["w"] | S["q"], [("w",), ("q",)])]
-    return _finish(genjax, jnp, dict(name="vec", model=vec, args=(), start=start, logp=logp, selections=sels, quadratic=False), {("w",): "c", ("q",): "c", ("y",): "c"})
+    kinds = {("w",): "c", ("q",): "c", ("y",): "c"}
+    ranges = [(-1, 1)] * n + [SC] * n + [(-1, 1)] * n + [SC, SC]
+    return _finish(genjax, jnp, dict(name=f"vec{n}", model=vec, logp=logp, selections=sels, quadratic=False), kinds, ranges, {("w",): (-1.5, 1.5, n), ("q",): (-1.5, 1.5, None), ("y",): (-1.5, 1.5, None)})
 
 
-def t_hier(rng, genjax, jnp):
+def t_hier(srng, genjax, jnp):
     S = genjax.SelectionBuilder
-    m0, s1, c, s2, s3 = _r(rng, -1, 1), _r(rng, 0.7, 1.5), _r(rng, -1.2, 1.2), _r(rng, 0.7, 1.5), _r(rng, 0.8, 1.5)
     mult = np.array([1.0, -0.5, 0.25])
     jmult = jnp.asarray(mult, jnp.float32)
-    with_vm = bool(rng.random() < 0.5)
+    with_vm = bool(srng.random() < 0.5)
 
     @genjax.gen
-    def sub(m):
-        u = genjax.normal(m, s1) @ "u"
-        v = genjax.normal(c * jnp.tanh(u), s2) @ "v"
+    def sub(m, th):
+        u = genjax.normal(m, th[1]) @ "u"
+        v = genjax.normal(th[2] * jnp.tanh(u), th[3]) @ "v"
         return u + 0.5 * v * v
 
     if with_vm:
 
         @genjax.gen
-        def hier():
-            m = genjax.normal(m0, 1.0) @ "m"
-            r = sub(m) @ "s"
-            rs = sub.vmap(in_axes=(0,))(m * jmult) @ "vm"
-            y = genjax.normal(r + jnp.sum(rs), s3) @ "y"
+        def hier(th):
+            m = genjax.normal(th[0], 1.0) @ "m"
+            r = sub(m, th) @ "s"
+            rs = sub.vmap(in_axes=(0, None))(m * jmult, th) @ "vm"
+            y = genjax.normal(r + jnp.sum(rs), th[4]) @ "y"
             return y
 
     else:
 
         @genjax.gen
-        def hier():
-            m = genjax.normal(m0, 1.0) @ "m"
-            r = sub(m) @ "s"
-            y = genjax.normal(r, s3) @ "y"
+        def hier(th):
+            m = genjax.normal(th[0], 1.0) @ "m"
+            r = sub(m, th) @ "s"
+            y = genjax.normal(r, th[4]) @ "y"
             return y
 
-    start = {("m",): _r(rng, -1.2, 1.2), ("s", "u"): _r(rng, -1.2, 1.2), ("s", "v"): _r(rng, -1.2, 1.2), ("vm", "u"): _rv(rng, -1.2, 1.2, 3), ("vm", "v"): _rv(rng, -1.2, 1.2, 3), ("y",): _r(rng, -1.5, 1.5)}
-    if not with_vm:
-        del start[("vm", "u")], start[("vm", "v")]
-
-    def logp(val, xp):
+    def logp(val, th, xp):
         m, u, v, y = val[("m",)], val[("s", "u")], val[("s", "v")], val[("y",)]
         r = u + 0.5 * v * v
+        base = n_lp(xp, m, th[0], 1.0) + n_lp(xp, u, m, th[1]) + n_lp(xp, v, th[2] * xp.tanh(u), th[3])
         if not with_vm:
-            return n_lp(xp, m, m0, 1.0) + n_lp(xp, u, m, s1) + n_lp(xp, v, c * xp.tanh(u), s2) + n_lp(xp, y, r, s3)
+            return base + n_lp(xp, y, r, th[4])
         vu, vv = val[("vm", "u")], val[("vm", "v")]
         rs = vu + 0.5 * vv * vv
-        return (
-            n_lp(xp, m, m0, 1.0)
-            + n_lp(xp, u, m, s1)
-            + n_lp(xp, v, c * xp.tanh(u), s2)
-            + n_lp(xp, vu, m * mult, s1)
-            + n_lp(xp, vv, c * xp.tanh(vu), s2)
-            + n_lp(xp, y, r + xp.sum(rs), s3)
-        )
-
-    read = {("vm", "u"): lambda ch: ch["vm", :, "u"], ("vm", "v"): lambda ch: ch["vm", :, "v"]}
+        return base + n_lp(xp, vu, m * mult, th[1]) + n_lp(xp, vv, th[2] * xp.tanh(vu), th[3]) + n_lp(xp, y, r + xp.sum(rs), th[4])
 
     sub_s = [("s", "u"), ("s", "v")]
     sub_vm = [("vm", "u"), ("vm", "v")]
-    sels = [
-        ("s", S["s"], sub_s),
-        ("s.u", S["s", "u"], [("s", "u")]),
-        ("m|s.v", S["m"] | S["s", "v"], [("m",), ("s", "v")]),
-        ("vm", S["vm"], sub_vm),
-        ("vm.u", S["vm", "u"], [("vm", "u")]),
-        ("m|s|vm", S["m"] | S["s"] | S["vm"], [("m",)] + sub_s + sub_vm),
-    ]
-    kinds = {("m",): "c", ("s", "u"): "c", ("s", "v"): "c", ("vm", "u"): "c", ("vm", "v"): "c", ("y",): "c"}
-    if not with_vm:
-        del kinds[("vm", "u")], kinds[("vm", "v")]
-        sels = [s_ for s_ in sels if "vm" not in s_[0]] + [("m|s", S["m"] | S["s"], [("m",)] + sub_s)]
-        read = {}
-    return _finish(genjax, jnp, dict(name="hier" + ("vm" if with_vm else ""), model=hier, args=(), start=start, logp=logp, selections=sels, quadratic=False), kinds, read=read)
+    kinds = {("m",): "c", ("s", "u"): "c", ("s", "v"): "c", ("y",): "c"}
+    sr = {("m",): (-1.2, 1.2, None), ("s", "u"): (-1.2, 1.2, None), ("s", "v"): (-1.2, 1.2, None), ("y",): (-1.5, 1.5, None)}
+    sels = [("s", S["s"], sub_s), ("s.u", S["s", "u"], [("s", "u")]), ("m|s.v", S["m"] | S["s", "v"], [("m",), ("s", "v")])]
+    read = {}
+    if with_vm:
+        kinds.update({("vm", "u"): "c", ("vm", "v"): "c"})
+        sr.update({("vm", "u"): (-1.2, 1.2, 3), ("vm", "v"): (-1.2, 1.2, 3)})
+        sels += [("vm", S["vm"], sub_vm), ("vm.u", S["vm", "u"], [("vm", "u")]), ("m|s|vm", S["m"] | S["s"] | S["vm"], [("m",)] + sub_s + sub_vm)]
+        read = {("vm", "u"): lambda ch: ch["vm", :, "u"], ("vm", "v"): lambda ch: ch["vm", :, "v"]}
+    else:
+        sels += [("m|s", S["m"] | S["s"], [("m",)] + sub_s)]
+    return _finish(genjax, jnp, dict(name="hier" + ("vm" if with_vm else ""), model=hier, logp=logp, selections=sels, quadratic=False), kinds, [(-1, 1), SC, (-1.2, 1.2), SC, (0.8, 1.5)], sr, read=read)
 
 
-def t_scan(rng, genjax, jnp):
+def t_scan(srng, genjax, jnp):
     S = genjax.SelectionBuilder
-    T = int(rng.integers(2, 5))
-    rho, sx, b, c0 = _r(rng, 0.4, 1.2), _r(rng, 0.7, 1.4), _r(rng, -0.4, 0.4), _r(rng, -1, 1)
-    svec = _rv(rng, 0.7, 1.4, T)
-    jsvec = jnp.asarray(svec, jnp.float32)
+    T = int(srng.integers(2, 5))
 
     @genjax.gen
-    def kern(carry, s):
-        x = genjax.normal(rho * jnp.tanh(carry), sx) @ "x"
-        y = genjax.normal(x + b * x * x, s) @ "y"
+    def kern(carry, p):
+        x = genjax.normal(p[1] * jnp.tanh(carry), p[2]) @ "x"
+        y = genjax.normal(x + p[3] * x * x, p[0]) @ "y"
         return x, None
 
     model = kern.scan(n=T)
-    start = {("x",): _rv(rng, -1.3, 1.3, T), ("y",): _rv(rng, -1.3, 1.3, T)}
 
-    def logp(v, xp):
+    # th = [rho, sx, b, c0, s_0 .. s_{T-1}]
+    def mk_args(th):
+        xp = jnp if not isinstance(th, np.ndarray) else np
+        rows = xp.stack([th[4 : 4 + T], th[0] * xp.ones(T), th[1] * xp.ones(T), th[2] * xp.ones(T)], axis=1)
+        return (th[3], rows)
+
+    def logp(v, th, xp):
         x, y = v[("x",)], v[("y",)]
         tot = 0.0
-        prev = c0
+        prev = th[3]
         for t in range(T):
-            tot = tot + n_lp(xp, x[t], rho * xp.tanh(prev), sx) + n_lp(xp, y[t], x[t] + b * x[t] * x[t], svec[t])
+            tot = tot + n_lp(xp, x[t], th[0] * xp.tanh(prev), th[1]) + n_lp(xp, y[t], x[t] + th[2] * x[t] * x[t], th[4 + t])
             prev = x[t]
         return tot
 
     read = {("x",): lambda ch: ch[:, "x"], ("y",): lambda ch: ch[:, "y"]}
-
     sels = [("x", S["x"], [("x",)]), ("x|y", S["x"] | S["y"], [("x",), ("y",)]), ("y", S["y"], [("y",)])]
-    return _finish(genjax, jnp, dict(name="scan", model=model, args=(jnp.asarray(c0, jnp.float32), jsvec), start=start, logp=logp, selections=sels, quadratic=False), {("x",): "c", ("y",): "c"}, read=read)
+    kinds = {("x",): "c", ("y",): "c"}
+    ranges = [(0.4, 1.2), SC, (-0.4, 0.4), (-1, 1)] + [SC] * T
+    return _finish(genjax, jnp, dict(name=f"scan{T}", model=model, mk_args=mk_args, logp=logp, selections=sels, quadratic=False), kinds, ranges, {("x",): (-1.3, 1.3, T), ("y",): (-1.3, 1.3, T)}, read=read)
 
 
-def t_mixed(rng, genjax, jnp):
-    """Continuous choices next to discrete ones.  Selections that also cover a discrete choice are
-    marked by `covers_discrete`: the statement says only the selected *continuous* choices move."""
+def t_mixed(srng, genjax, jnp):
+    """Continuous choices next to discrete ones.  Two of the selections also cover a discrete
+    choice: the statement says only the selected *continuous* choices move."""
     S = genjax.SelectionBuilder
-    p, m1, m0, s, s3 = _r(rng, 0.2, 0.8), _r(rng, 0.3, 1.2), _r(rng, -1.2, -0.3), _r(rng, 0.7, 1.4), _r(rng, 0.7, 1.3)
-    logits = _rv(rng, -1, 1, 3)
-    jlogits = jnp.asarray(logits, jnp.float32)
+    bval, kval = bool(srng.random() < 0.5), int(srng.integers(3))
 
+    # th = [p, m1, m0, s, s3, l0, l1, l2]
     @genjax.gen
-    def mixed():
-        bb = genjax.flip(p) @ "b"
-        k = genjax.categorical(jlogits) @ "k"
-        x = genjax.normal(jnp.where(bb, m1, m0) + 0.3 * k, 1.0) @ "x"
-        z = genjax.normal(0.5 * x * x, s) @ "z"
-        y = genjax.normal(x + z, s3) @ "y"
+    def mixed(th):
+        bb = genjax.flip(th[0]) @ "b"
+        k = genjax.categorical(th[5:8]) @ "k"
+        x = genjax.normal(jnp.where(bb, th[1], th[2]) + 0.3 * k, 1.0) @ "x"
+        z = genjax.normal(0.5 * x * x, th[3]) @ "z"
+        y = genjax.normal(x + z, th[4]) @ "y"
         return y
 
-    bval, kval = bool(rng.random() < 0.5), int(rng.integers(3))
-    start = {("b",): bval, ("k",): kval, ("x",): _r(rng, -1.3, 1.3), ("z",): _r(rng, -1.3, 1.3), ("y",): _r(rng, -1.3, 1.3)}
-    const = (math.log(p) if bval else math.log1p(-p)) + float(logits[kval] - np.log(np.sum(np.exp(logits))))
-    loc = (m1 if bval else m0) + 0.3 * kval
-
-    def logp(v, xp):
+    def logp(v, th, xp):
         if bool(np.asarray(v[("b",)])) != bval or int(np.asarray(v[("k",)])) != kval:
-            raise ValueError("reference density is specialised to the start values of the discrete choices")
+            raise ValueError("reference density is specialised to the family's discrete start values")
         x, z, y = v[("x",)], v[("z",)], v[("y",)]
-        return const + n_lp(xp, x, loc, 1.0) + n_lp(xp, z, 0.5 * x * x, s) + n_lp(xp, y, x + z, s3)
+        lg = th[5:8]
+        const = (xp.log(th[0]) if bval else xp.log(1.0 - th[0])) + lg[kval] - xp.log(xp.sum(xp.exp(lg)))
+        loc = (th[1] if bval else th[2]) + 0.3 * kval
+        return const + n_lp(xp, x, loc, 1.0) + n_lp(xp, z, 0.5 * x * x, th[3]) + n_lp(xp, y, x + z, th[4])
 
     sels = [
         ("x", S["x"], [("x",)]),
@@ -330,14 +328,16 @@ def t_mixed(rng, genjax, jnp):
         ("all", genjax.Selection.all(), [("b",), ("k",), ("x",), ("z",), ("y",)]),
     ]
     kinds = {("b",): "b", ("k",): "i", ("x",): "c", ("z",): "c", ("y",): "c"}
-    return _finish(genjax, jnp, dict(name="mixed", model=mixed, args=(), start=start, logp=logp, selections=sels, quadratic=False), kinds)
+    ranges = [(0.2, 0.8), (0.3, 1.2), (-1.2, -0.3), SC, SC, (-1, 1), (-1, 1), (-1, 1)]
+    sr = {("x",): (-1.3, 1.3, None), ("z",): (-1.3, 1.3, None), ("y",): (-1.3, 1.3, None)}
+    return _finish(genjax, jnp, dict(name="mixed", model=mixed, logp=logp, selections=sels, quadratic=False, fixed_start={("b",): bval, ("k",): kval}), kinds, ranges, sr)
 
 
 TEMPLATES = [t_chain, t_gauss, t_funnel, t_heavy, t_vec, t_hier, t_scan, t_mixed]
 WEIGHTS = [3, 1, 2, 2, 2, 3, 3, 2]
 
 
-def draw(rng, genjax, jnp):
+def draw(srng, genjax, jnp):
     w = np.asarray(WEIGHTS, float)
-    t = TEMPLATES[int(rng.choice(len(TEMPLATES), p=w / w.sum()))]
-    return t(rng, genjax, jnp)
+    t = TEMPLATES[int(srng.choice(len(TEMPLATES), p=w / w.sum()))]
+    return t(srng, genjax, jnp)
